@@ -89,15 +89,15 @@ template <class A> RTA observe(const A& x) { std::map<std::string, St> ids; retu
 // ---------------------------------------------------------------- NFAs
 typedef ExplicitFiniteAut FA;
 
-inline std::string faToTimbuk(const RFA& a, int nsym, const std::string& name = "A")
+inline std::string faToTimbuk(const RFA& a, int nsym, const std::string& name = "A", const char* q = "q")
 {
 	std::ostringstream os; os << "Ops x:0"; for (int i = 0; i < nsym; ++i) os << " a" << i << ":1";
 	os << "\nAutomaton " << name << "\nStates";
-	for (St s : a.states()) os << " q" << s;
-	os << "\nFinal States"; for (St f : a.fin) os << " q" << f;
+	for (St s : a.states()) os << " " << q << s;
+	os << "\nFinal States"; for (St f : a.fin) os << " " << q << f;
 	os << "\nTransitions\n";
-	for (St s : a.start) os << "x -> q" << s << "\n";
-	for (auto& t : a.tr) os << "a" << std::get<1>(t) << "(q" << std::get<0>(t) << ") -> q" << std::get<2>(t) << "\n";
+	for (St s : a.start) os << "x -> " << q << s << "\n";
+	for (auto& t : a.tr) os << "a" << std::get<1>(t) << "(" << q << std::get<0>(t) << ") -> " << q << std::get<2>(t) << "\n";
 	return os.str();
 }
 // dump -> RFA; start states are the nullary rules; symbols a<i>
